@@ -392,6 +392,14 @@ def run_impl(case):
     from mystic import symbolic as S
     k = case["kind"]
     if k in ("simplify", "simplify_div"):
+        # an earlier call on the same text that asked for one (randomly chosen) case only must not influence the call that asks for all cases
+        try:
+            random.seed(case.get("rseed", 0) + 1)
+            import io as _io, contextlib as _cl
+            with _cl.redirect_stdout(_io.StringIO()):
+                S.simplify(case["text"], variables=case["variables"])
+        except Exception:
+            pass
         random.seed(case.get("rseed", 0))   # mystic decides flips with random test points: make the run reproducible
         return _res(lambda: S.simplify(case["text"], variables=case["variables"], all=True))
     if k == "solve":
@@ -667,6 +675,16 @@ def _overflow_lines(case_rels):
     return [i for i, r in enumerate(case_rels) if any(abs(c) > FLOAT_MAX for c in _coeffs(r[0]) + _coeffs(r[2]))]
 
 
+def _swamped_input(inp):
+    """an input line whose coefficients span more than 2**53: evaluated at a float test point the small terms vanish next to the large
+    ones (1e15*u + 4e-7 == 1e15*u), so mystic's decision whether to flip is arbitrary there - the same finding E, without any overflow"""
+    for r in inp:
+        cs = [abs(c) for c in _coeffs(r[0]) + _coeffs(r[2]) if c != 0]
+        if cs and max(cs) / min(cs) > 2 ** 53:
+            return True
+    return False
+
+
 def _new_divisor_vars(inp, cases):
     din = set()
     for r in inp:
@@ -806,10 +824,10 @@ def oracle(case, obs):
             left.append((p, a, b))
     det = dict(point=[str(x) for x in mism[0][0]], input_holds=mism[0][1], output_holds=mism[0][2], n_points=len(mism),
                output=obs.get("cases"))
-    if left and len(cases) == 1 and _overflow_lines(cases[0]):
-        # are the remaining differences explained by flipping back the comparator of overflowing lines?
+    if left and len(cases) == 1 and (_overflow_lines(cases[0]) or _swamped_input(inp)):
+        # are the remaining differences explained by flipping back the comparator of overflowing lines (or, for a swamped input, of any lines)?
         flipc = {"<": ">", "<=": ">=", ">=": "<=", ">": "<", "=": "=", "!=": "!="}
-        idx = _overflow_lines(cases[0])
+        idx = _overflow_lines(cases[0]) or [i for i, r in enumerate(cases[0]) if r[1] not in ("=", "!=")][:4]
         import itertools
         for k_ in range(1, len(idx) + 1):
             for sub in itertools.combinations(idx, k_):
@@ -1074,6 +1092,8 @@ def coq_terms(case, obs):
     import re as _re
     if _re.search(r"e[+-]?300", case.get("text", "")):
         return []     # ... nor is its being swamped by constants at the edge of the float range in the input (same finding)
+    if _swamped_input(inp):
+        return []     # ... or by coefficients of one line that span more than 2**53
     adjusted = False
     if k != "solve":
         minp, notes = _model_input(inp)
